@@ -1,7 +1,9 @@
 use std::cmp::Ordering;
 
 use rusty_common::*;
-use rusty_parser::{AsBareName, Expression, ExpressionPos, Operator, TypeQualifier, UnaryOperator};
+use rusty_parser::{
+    AsBareName, Expression, ExpressionPos, Name, Operator, TypeQualifier, UnaryOperator,
+};
 use rusty_variant::Variant;
 
 use crate::core::{CastVariant, LintError, LintErrorPos};
@@ -47,30 +49,12 @@ where
             Expression::StringLiteral(s) => Ok(Variant::VString(s.clone())),
             Expression::IntegerLiteral(i) => Ok(Variant::VInteger(*i)),
             Expression::LongLiteral(l) => Ok(Variant::VLong(*l)),
-            Expression::Variable(name_expr, _) => {
-                let bare_name = name_expr.as_bare_name();
-                let bare_name_pos = Positioned::new(bare_name, *pos);
-                let v = self.eval_const(&bare_name_pos)?;
-                if let Some(qualifier) = name_expr.qualifier() {
-                    let v_q = match v {
-                        Variant::VDouble(_) => TypeQualifier::HashDouble,
-                        Variant::VSingle(_) => TypeQualifier::BangSingle,
-                        Variant::VInteger(_) => TypeQualifier::PercentInteger,
-                        Variant::VLong(_) => TypeQualifier::AmpersandLong,
-                        Variant::VString(_) => TypeQualifier::DollarString,
-                        _ => {
-                            panic!("should not have been possible to store a constant of this type")
-                        }
-                    };
-                    if v_q == qualifier {
-                        Ok(v)
-                    } else {
-                        Err(LintError::TypeMismatch.at_pos(*pos))
-                    }
-                } else {
-                    Ok(v)
-                }
-            }
+            Expression::Variable(name_expr, _) => eval_const_name(self, name_expr, *pos),
+            // a dotted name, e.g. `A.B`, is parsed as a property
+            Expression::Property(_, _, _) => match expression.fold_name() {
+                Some(name) => eval_const_name(self, &name, *pos),
+                _ => Err(LintError::InvalidConstant.at_pos(*pos)),
+            },
             Expression::BinaryExpression(op, left, right, _) => {
                 let v_left = self.eval_const(left)?;
                 let v_right = self.eval_const(right)?;
@@ -129,11 +113,39 @@ where
                 .map_err(|e| e.at(child))
             }
             Expression::Parenthesis(child) => self.eval_const(child),
-            Expression::Property(_, _, _)
-            | Expression::FunctionCall(_, _)
+            Expression::FunctionCall(_, _)
             | Expression::ArrayElement(_, _, _)
             | Expression::BuiltInFunctionCall(_, _) => Err(LintError::InvalidConstant.at_pos(*pos)),
         }
+    }
+}
+
+fn eval_const_name<S: ConstLookup>(
+    lookup: &S,
+    name_expr: &Name,
+    pos: Position,
+) -> Result<Variant, LintErrorPos> {
+    let bare_name = name_expr.as_bare_name();
+    let bare_name_pos = Positioned::new(bare_name, pos);
+    let v = lookup.eval_const(&bare_name_pos)?;
+    if let Some(qualifier) = name_expr.qualifier() {
+        let v_q = match v {
+            Variant::VDouble(_) => TypeQualifier::HashDouble,
+            Variant::VSingle(_) => TypeQualifier::BangSingle,
+            Variant::VInteger(_) => TypeQualifier::PercentInteger,
+            Variant::VLong(_) => TypeQualifier::AmpersandLong,
+            Variant::VString(_) => TypeQualifier::DollarString,
+            _ => {
+                panic!("should not have been possible to store a constant of this type")
+            }
+        };
+        if v_q == qualifier {
+            Ok(v)
+        } else {
+            Err(LintError::TypeMismatch.at_pos(pos))
+        }
+    } else {
+        Ok(v)
     }
 }
 
